@@ -256,3 +256,12 @@ pub fn encryptor_specs(include_slow: bool) -> Vec<Spec> {
     }
     v
 }
+
+/// Generates (and caches) the slow keys of the zoo.
+pub fn warm() {
+    for v6 in [false, true] {
+        let _ = key(&Spec::simple(v6, Alg::Rsa2048, Some(Alg::Rsa2048)), 0);
+        let _ = key(&Spec::simple(v6, Alg::Rsa2048, None), 0);
+    }
+    let _ = key(&Spec::simple(false, Alg::Dsa2048, None), 0);
+}
